@@ -43,6 +43,7 @@ Proof. destruct d; cbn; eauto. Qed.
 Variable ch : cursor xst.
 Hypothesis Hstep : forall o m g, step ch o (XG m g) = XG m (step gcur o g).
 Hypothesis Hkv : forall m g, c_kv ch (XG m g) = g_kv (g_pos g).
+Hypothesis Hfail : forall m g, c_fail ch (XG m g) = None.
 
 (* the wrapper leaf with the conventional seek_to_first *)
 Definition xfix0 : cursor xst := {|
@@ -50,25 +51,42 @@ Definition xfix0 : cursor xst := {|
   c_last := c_last ch; c_seek := c_seek ch; c_prev := c_prev ch;
   c_next := c_next ch; c_kv := c_kv ch; c_fail := c_fail ch |}.
 
+Lemma ch_first m g : c_first ch (XG m g) = XG m (c_first gcur g). Proof. exact (Hstep OFirst m g). Qed.
+Lemma ch_last m g : c_last ch (XG m g) = XG m (c_last gcur g). Proof. exact (Hstep OLast m g). Qed.
+Lemma ch_seek k m g : c_seek ch k (XG m g) = XG m (c_seek gcur k g). Proof. exact (Hstep (OSeek k) m g). Qed.
+Lemma ch_prev m g : c_prev ch (XG m g) = XG m (c_prev gcur g). Proof. exact (Hstep OPrev m g). Qed.
+Lemma ch_next m g : c_next ch (XG m g) = XG m (c_next gcur g). Proof. exact (Hstep ONext m g). Qed.
+
+Lemma xfix0_step o m g : step xfix0 o (XG m g) = XG m (step gfix o g).
+Proof.
+  destruct o; cbn [step xfix0 gfix c_first c_last c_seek c_prev c_next].
+  - reflexivity.
+  - apply ch_last.
+  - apply ch_seek.
+  - apply ch_prev.
+  - apply ch_next.
+Qed.
+
 Section Mem.
 Variables (m : N) (l : list entry).
 Hypothesis Hs : sorted l.
 
 Definition isG (u : xst) : Prop := exists g, u = XG m g /\ g_tab g = l.
 
+Lemma gcur_tab o g : g_tab (step gcur o g) = g_tab g.
+Proof. destruct o; reflexivity. Qed.
+
 Lemma isG_closed0 : closed ch isG.
-Proof. intros o u [g [-> Ht]]. destruct o; cbn; eexists; split; try reflexivity; exact Ht. Qed.
-Lemma isG_closedfix : closed xfix0 isG.
-Proof. intros o u [g [-> Ht]]. destruct o; cbn; eexists; split; try reflexivity; exact Ht. Qed.
+Proof. intros o u [g [-> Ht]]. rewrite Hstep. eexists. split; [reflexivity|]. now rewrite gcur_tab. Qed.
 
 Lemma xfix0_sim : sim xfix0 l (fun u i => exists g, u = XG m g /\ GR l g i).
 Proof.
   constructor.
   - intros u i [g [-> H]]. now apply (GR_range l g i).
-  - intros u i [g [-> H]]. exact (sim_kv gfix l (GR l) (gfix_sim l Hs) g i H).
-  - intros u i [g [-> H]]. reflexivity.
-  - intros o u i [g [-> H]]. pose proof (sim_step gfix l (GR l) (gfix_sim l Hs) o g i H) as Hst.
-    destruct o; cbn [step xfix0 xcur xcur1 xstep1 c_first c_last c_seek c_prev c_next] in *; eexists; split; try reflexivity; exact Hst.
+  - intros u i [g [-> H]]. cbn [xfix0 c_kv]. rewrite Hkv. exact (sim_kv gfix l (GR l) (gfix_sim l Hs) g i H).
+  - intros u i [g [-> H]]. cbn [xfix0 c_fail]. apply Hfail.
+  - intros o u i [g [-> H]]. rewrite xfix0_step. eexists. split; [reflexivity|].
+    exact (sim_step gfix l (GR l) (gfix_sim l Hs) o g i H).
 Qed.
 Lemma xfix0_refines g i : GR l g i -> refines xfix0 (XG m g) l i.
 Proof. intros H. apply (sim_refines xfix0 l _ xfix0_sim). eauto. Qed.
@@ -86,9 +104,15 @@ Lemma bfirst_eq lo hi st : isG (b_cur st) -> (l <> [] \/ lo <> Unbounded) ->
   b_first_raw ch lo hi st = b_first_raw xfix0 lo hi st.
 Proof.
   intros [g [Hc Ht]] Hne. unfold b_first_raw. destruct lo as [|k|k]; try reflexivity.
-  destruct Hne as [Hne|Hne]; [|congruence]. f_equal. cbn [set_pos set_cur b_cur]. f_equal. rewrite Hc.
-  unfold prev_if_some, has_key. cbn [xcur xcur1 xfix0 c_first c_kv c_prev xstep1 xkv1 step gcur g_tab g_pos]. rewrite Ht.
-  destruct l as [|a r] eqn:El; [congruence|]. cbn [g_front g_kv g_prev]. rewrite <- El. rewrite (pred_first a r El). reflexivity.
+  destruct Hne as [Hne|Hne]; [|congruence].
+  assert (prev_if_some ch (c_first ch (b_cur (set_pos st BeforeStart))) =
+          prev_if_some xfix0 (c_first xfix0 (b_cur (set_pos st BeforeStart)))) as E.
+  { cbn [set_pos b_cur]. rewrite Hc.
+    unfold prev_if_some, has_key. cbn [xfix0 c_first c_kv c_prev]. rewrite ch_first, !Hkv. cbn [gcur c_first g_pos g_kv]. rewrite Ht.
+    assert (exists a r, l = a :: r) as [a [r El]] by (clear -Hne; destruct l; [congruence|eauto]).
+    assert (g_front l = GAt a) as Ef by (rewrite El; reflexivity). rewrite Ef. cbn [g_kv]. rewrite ch_prev.
+    cbn [gcur c_prev g_tab g_pos g_prev]. rewrite (pred_first a r El). reflexivity. }
+  rewrite E. reflexivity.
 Qed.
 
 Lemma bstep_eq lo hi o st : isG (b_cur st) -> (l <> [] \/ lo <> Unbounded) ->
@@ -120,104 +144,202 @@ Proof.
 Qed.
 
 (* over the empty list nothing is ever returned *)
-Definition emptyR (st : bstate xst) (P : Z) : Prop :=
-  l = [] /\ b_fail st = None /\ (exists p, b_cur st = XG m (mkG [] p) /\ (p = GHead \/ p = GEnd)) /\ -1 <= P <= 0.
+Definition isE (u : xst) : Prop := exists p, u = XG m (mkG [] p) /\ (p = GHead \/ p = GEnd).
+Definition emptyR (st : bstate xst) (P : Z) : Prop := b_fail st = None /\ isE (b_cur st) /\ -1 <= P <= 0.
 
-Lemma empty_cur_closed o u : (exists p, u = XG m (mkG [] p) /\ (p = GHead \/ p = GEnd)) ->
-  exists p, step ch o u = XG m (mkG [] p) /\ (p = GHead \/ p = GEnd).
-Proof. intros [p [-> Hp]]. destruct o; destruct Hp as [-> | ->]; cbn; eauto. Qed.
+Lemma isE_closed : closed ch isE.
+Proof. intros o u [p [-> Hp]]. rewrite Hstep. destruct o; destruct Hp as [-> | ->]; cbn; eexists; split; try reflexivity; auto. Qed.
+Lemma isE_kv u : isE u -> c_kv ch u = None.
+Proof. intros [p [-> Hp]]. rewrite Hkv. destruct Hp as [-> | ->]; reflexivity. Qed.
 
 Lemma mem_sim_empty lo hi : (1 <= fuel)%nat -> sim (bounds ch fuel lo hi) [] emptyR.
 Proof.
   intros Hfu.
-  assert (forall st, (exists p, b_cur st = XG m (mkG [] p) /\ (p = GHead \/ p = GEnd)) -> b_kv ch st = None) as Hkv.
-  { intros st [p [Hc Hp]]. unfold b_kv. destruct (b_pos st); try reflexivity. rewrite Hc. destruct Hp as [-> | ->]; reflexivity. }
+  assert (forall st, isE (b_cur st) -> b_kv ch st = None) as Hbkv
+    by (intros st H; unfold b_kv; destruct (b_pos st); try reflexivity; now apply isE_kv).
+  assert (forall st, isE (b_cur st) -> check_start ch lo st = st) as Hcs by (intros st0 H0; unfold check_start; now rewrite (Hbkv st0 H0)).
+  assert (forall st, isE (b_cur st) -> check_end ch hi st = st) as Hce by (intros st0 H0; unfold check_end; now rewrite (Hbkv st0 H0)).
+  assert (forall u, isE u -> has_key ch u = false) as Hhk by (intros u Hu; unfold has_key; now rewrite (isE_kv u Hu)).
+  assert (forall u, isE u -> prev_if_some ch u = u) as Hpi by (intros u Hu; unfold prev_if_some; now rewrite (Hhk u Hu)).
+  assert (forall n k u, isE u -> skip_equal ch n k u = Some u) as Hse by (intros n k u Hu; destruct n; cbn [skip_equal]; now rewrite (isE_kv u Hu)).
+  (* the pieces: each keeps the shape and cannot fail *)
+  assert (forall cur pos0, isE cur -> b_fail (b_first_raw ch lo hi (mkB cur pos0 None)) = None /\ isE (b_cur (b_first_raw ch lo hi (mkB cur pos0 None)))) as Hfirst.
+  { intros cur pos0 Hc. unfold b_first_raw.
+    destruct lo as [|k|k]; cbn [set_pos set_cur b_cur];
+      [pose proof (isE_closed OFirst cur Hc) as H1|pose proof (isE_closed (OSeek k) cur Hc) as H1|pose proof (isE_closed (OSeek k) cur Hc) as H1];
+      cbn [step] in H1; rewrite (Hpi _ H1); rewrite Hce by (cbn [b_cur]; exact H1); cbn [b_fail b_cur]; auto. }
+  assert (forall cur pos0, isE cur -> b_fail (b_last_raw ch fuel lo hi (mkB cur pos0 None)) = None /\ isE (b_cur (b_last_raw ch fuel lo hi (mkB cur pos0 None)))) as Hlast.
+  { intros cur pos0 Hc. unfold b_last_raw. destruct hi as [|k|k]; cbn [set_pos set_cur b_cur].
+    - pose proof (isE_closed OLast cur Hc) as H1. cbn [step] in H1. rewrite Hcs by (cbn [b_cur]; exact H1). cbn [b_fail b_cur]. auto.
+    - pose proof (isE_closed (OSeek k) cur Hc) as H1. cbn [step] in H1. rewrite (Hse fuel k _ H1).
+      cbn [set_cur set_pos]. rewrite Hcs by (cbn [b_cur]; exact H1). cbn [b_fail b_cur]. auto.
+    - pose proof (isE_closed (OSeek k) cur Hc) as H1. cbn [step] in H1. rewrite Hcs by (cbn [b_cur]; exact H1). cbn [b_fail b_cur]. auto. }
+  assert (forall cur pos0, isE cur -> b_fail (b_next_raw ch fuel lo hi (mkB cur pos0 None)) = None /\ isE (b_cur (b_next_raw ch fuel lo hi (mkB cur pos0 None)))) as Hnext.
+  { intros cur pos0 Hc. unfold b_next_raw. destruct fuel as [|f]; [lia|]. cbn [b_next_loop b_pos].
+    destruct (bpos_eqb pos0 AfterEnd); [cbn [b_fail b_cur]; auto|].
+    pose proof (isE_closed ONext cur Hc) as H1. cbn [step] in H1. cbn [set_cur set_pos b_cur].
+    rewrite Hcs by (cbn [b_cur]; exact H1). rewrite Hce by (cbn [b_cur]; exact H1). cbn [b_pos bpos_eqb negb b_fail b_cur]. auto. }
   constructor.
-  - intros st P [_ [_ [_ H]]]. rewrite len_nil. lia.
-  - intros st P [_ [_ [Hc _]]]. cbn [bounds c_kv]. rewrite (Hkv st Hc). now rewrite ent_nil.
-  - intros st P [_ [H _]]. exact H.
-  - intros o st P [El [Hf [Hc HP]]].
+  - intros st P [_ [_ H]]. rewrite len_nil. lia.
+  - intros st P [_ [Hc _]]. cbn [bounds c_kv]. rewrite (Hbkv st Hc). now rewrite ent_nil.
+  - intros st P [H _]. exact H.
+  - intros o st P [Hf [Hc HP]].
     assert (-1 <= step (ref []) o P <= 0) as HP' by (pose proof (ref_step_range [] o P); rewrite len_nil in *; auto).
-    split; [exact El|].
-    (* every piece of the bounds cursor keeps the shape and cannot fail *)
-    assert (forall st, (exists p, b_cur st = XG m (mkG [] p) /\ (p = GHead \/ p = GEnd)) -> check_start ch lo st = st) as Hcs
-      by (intros st0 H0; unfold check_start; now rewrite (Hkv st0 H0)).
-    assert (forall st, (exists p, b_cur st = XG m (mkG [] p) /\ (p = GHead \/ p = GEnd)) -> check_end ch hi st = st) as Hce
-      by (intros st0 H0; unfold check_end; now rewrite (Hkv st0 H0)).
-    assert (forall u, (exists p, u = XG m (mkG [] p) /\ (p = GHead \/ p = GEnd)) -> has_key ch u = false) as Hhk
-      by (intros u [p [-> [-> | ->]]]; reflexivity).
     destruct st as [cur pos fl]. cbn [b_fail b_cur] in *. subst fl.
-    assert (forall pos0, b_fail (b_first_raw ch lo hi (mkB cur pos0 None)) = None /\
-              exists p, b_cur (b_first_raw ch lo hi (mkB cur pos0 None)) = XG m (mkG [] p) /\ (p = GHead \/ p = GEnd)) as Hfirst.
-    { intros pos0. unfold b_first_raw.
-      assert (forall u, (exists p, u = XG m (mkG [] p) /\ (p = GHead \/ p = GEnd)) -> prev_if_some ch u = u) as Hpi
-        by (intros u Hu; unfold prev_if_some; now rewrite (Hhk u Hu)).
-      destruct lo as [|k|k]; cbn [set_pos set_cur b_cur];
-        [pose proof (empty_cur_closed OFirst cur Hc) as H1|pose proof (empty_cur_closed (OSeek k) cur Hc) as H1|pose proof (empty_cur_closed (OSeek k) cur Hc) as H1];
-        cbn [step] in H1; rewrite (Hpi _ H1); rewrite Hce by (cbn [b_cur]; exact H1); cbn [b_fail b_cur]; auto. }
-    assert (forall pos0, b_fail (b_last_raw ch fuel lo hi (mkB cur pos0 None)) = None /\
-              exists p, b_cur (b_last_raw ch fuel lo hi (mkB cur pos0 None)) = XG m (mkG [] p) /\ (p = GHead \/ p = GEnd)) as Hlast.
-    { intros pos0. unfold b_last_raw. destruct hi as [|k|k]; cbn [set_pos set_cur b_cur].
-      - pose proof (empty_cur_closed OLast cur Hc) as H1. cbn [step] in H1. rewrite Hcs by (cbn [b_cur]; exact H1). cbn [b_fail b_cur]. auto.
-      - pose proof (empty_cur_closed (OSeek k) cur Hc) as H1. cbn [step] in H1.
-        assert (skip_equal ch fuel k (c_seek ch k cur) = Some (c_seek ch k cur)) as ->.
-        { destruct H1 as [p [E Hp]]. rewrite E. destruct fuel; destruct Hp as [-> | ->]; reflexivity. }
-        cbn [set_cur set_pos]. rewrite Hcs by (cbn [b_cur]; exact H1). cbn [b_fail b_cur]. auto.
-      - pose proof (empty_cur_closed (OSeek k) cur Hc) as H1. cbn [step] in H1. rewrite Hcs by (cbn [b_cur]; exact H1). cbn [b_fail b_cur]. auto. }
-    assert (forall pos0 cur0, (exists p, cur0 = XG m (mkG [] p) /\ (p = GHead \/ p = GEnd)) ->
-              b_fail (b_next_raw ch fuel lo hi (mkB cur0 pos0 None)) = None /\
-              exists p, b_cur (b_next_raw ch fuel lo hi (mkB cur0 pos0 None)) = XG m (mkG [] p) /\ (p = GHead \/ p = GEnd)) as Hnext.
-    { intros pos0 cur0 Hc0. unfold b_next_raw. destruct fuel as [|f]; [lia|]. cbn [b_next_loop b_pos].
-      destruct (bpos_eqb pos0 AfterEnd); [cbn [b_fail b_cur]; auto|].
-      pose proof (empty_cur_closed ONext cur0 Hc0) as H1. cbn [step] in H1. cbn [set_cur set_pos b_cur].
-      rewrite Hcs by (cbn [b_cur]; exact H1). rewrite Hce by (cbn [b_cur]; exact H1). cbn [b_pos bpos_eqb negb b_fail b_cur]. auto. }
     destruct o; cbn [step bounds c_first c_last c_seek c_prev c_next b_guard b_fail].
-    + destruct (Hfirst pos) as [H1 H2]. auto.
-    + destruct (Hlast pos) as [H1 H2]. auto.
-    + unfold b_seek_raw. cbn [set_pos set_cur b_cur]. pose proof (empty_cur_closed (OSeek k) cur Hc) as H1. cbn [step] in H1.
-      rewrite Hce by (cbn [b_cur]; exact H1). rewrite Hcs by (cbn [b_cur]; exact H1). cbn [b_pos bpos_eqb b_cur orb].
-      rewrite (Hhk _ H1). cbn [negb].
-      assert (forall pos0, b_fail (b_last_raw ch fuel lo hi (mkB (c_seek ch k cur) pos0 None)) = None /\
-              exists p, b_cur (b_last_raw ch fuel lo hi (mkB (c_seek ch k cur) pos0 None)) = XG m (mkG [] p) /\ (p = GHead \/ p = GEnd)) as Hlast'.
-      { intros pos0. unfold b_last_raw. destruct hi as [|k0|k0]; cbn [set_pos set_cur b_cur].
-        - pose proof (empty_cur_closed OLast _ H1) as H2. cbn [step] in H2. rewrite Hcs by (cbn [b_cur]; exact H2). cbn [b_fail b_cur]. auto.
-        - pose proof (empty_cur_closed (OSeek k0) _ H1) as H2. cbn [step] in H2.
-          assert (skip_equal ch fuel k0 (c_seek ch k0 (c_seek ch k cur)) = Some (c_seek ch k0 (c_seek ch k cur))) as ->.
-          { destruct H2 as [p [E Hp]]. rewrite E. destruct fuel; destruct Hp as [-> | ->]; reflexivity. }
-          cbn [set_cur set_pos]. rewrite Hcs by (cbn [b_cur]; exact H2). cbn [b_fail b_cur]. auto.
-        - pose proof (empty_cur_closed (OSeek k0) _ H1) as H2. cbn [step] in H2. rewrite Hcs by (cbn [b_cur]; exact H2). cbn [b_fail b_cur]. auto. }
-      destruct (Hlast' Positioned) as [H2 H3]. auto.
+    + destruct (Hfirst cur pos Hc) as [H1 H2]. split; auto.
+    + destruct (Hlast cur pos Hc) as [H1 H2]. split; auto.
+    + unfold b_seek_raw. cbn [set_pos set_cur b_cur]. pose proof (isE_closed (OSeek k) cur Hc) as H1. cbn [step] in H1.
+      rewrite Hce by (cbn [b_cur]; exact H1). rewrite Hcs by (cbn [b_cur]; exact H1).
+      unfold set_cur, set_pos. cbn [b_pos bpos_eqb b_cur b_fail orb].
+      rewrite (Hhk _ H1). cbn [negb]. destruct (Hlast (c_seek ch k cur) Positioned H1) as [H2 H3]. split; auto.
     + unfold b_prev_raw. cbn [b_pos]. destruct (negb (bpos_eqb pos BeforeStart)); cbn [set_pos set_cur b_cur].
-      * pose proof (empty_cur_closed OPrev cur Hc) as H1. cbn [step] in H1. rewrite Hcs by (cbn [b_cur]; exact H1). cbn [b_fail b_cur]. auto.
-      * rewrite Hcs by (cbn [b_cur]; exact Hc). cbn [b_fail b_cur]. auto.
-    + destruct (Hnext pos cur Hc) as [H1 H2]. auto.
+      * pose proof (isE_closed OPrev cur Hc) as H1. cbn [step] in H1. rewrite Hcs by (cbn [b_cur]; exact H1). cbn [b_fail b_cur]. split; auto.
+      * rewrite Hcs by (cbn [b_cur]; exact Hc). cbn [b_fail b_cur]. split; auto.
+    + destruct (Hnext cur pos Hc) as [H1 H2]. split; auto.
 Qed.
 
-(* the memtable cursor as KeyValueStore::range_scan leaves it *)
-Theorem mem_leaf_refines lo hi d : Z.of_nat fuel >= len l + 2 ->
-  refines (xcur fuel (Datatypes.S d)) (mem_leaf fuel lo hi (m, l)) (bounds_spec lo hi l) (-1).
+(* MemTable::range_scan's cursor after BoundsCursor::new, over a list that does not change *)
+Theorem mem_bounds_refines lo hi : Z.of_nat fuel >= len l + 2 ->
+  refines (bounds ch fuel lo hi) (b_new ch lo hi (XG m (g_new l))) (bounds_spec lo hi l) (-1).
 Proof.
-  intros Hfu. unfold mem_leaf. cbn [fst snd xcur].
-  assert (refines (xcur1 fuel ch) (XB lo hi (b_new ch lo hi (XG m (g_new l)))) (bounds_spec lo hi l) (-1)) as H0.
-  { apply wrap_XB. destruct l as [|a r] eqn:El.
-    - assert (bounds_spec lo hi [] = []) as -> by reflexivity.
-      apply (sim_refines _ _ _ (mem_sim_empty lo hi ltac:(lia))).
-      split; [reflexivity|]. unfold b_new.
-      pose proof (sim_step _ _ _ (mem_sim_empty lo hi ltac:(lia)) OFirst (mkB (XG m (g_new [])) BeforeStart None) (-1)) as Hst.
-      cbn [step bounds c_first b_guard b_fail] in Hst. destruct Hst as [_ H]; [|split; [apply H|split; [apply H|lia]]].
-      split; [reflexivity|]. split; [reflexivity|]. split; [eexists; split; [reflexivity|now right]|lia].
-    - rewrite <- El in *. assert (l <> [] \/ lo <> Unbounded) as Hne by (left; rewrite El; discriminate).
-      apply (sim_refines _ _ _ (mem_sim_nonempty lo hi Hne Hfu)). split.
-      + unfold b_new. rewrite (bfirst_eq lo hi _ ltac:(cbn [b_cur]; eexists; split; [reflexivity|reflexivity]) Hne).
-        apply (bounds_new_R xfix0 fuel lo hi l (XG m (g_new l)) (len l)). apply xfix0_refines. split; [reflexivity|reflexivity].
-      + apply (pres_b_new ch isG isG_closed0 lo hi). eexists. split; reflexivity. }
-  (* range_scan calls seek_to_first once more *)
-  pose proof (refines_first _ _ _ _ H0) as H1.
-  destruct d as [|d].
-  - exact H1.
-  - (* a deeper cursor record acts on a bounds-over-leaf state exactly as depth 1 *)
-    assert (forall u, c_first (xcur fuel 1) (XB lo hi u) = c_first (xcur1 fuel ch) (XB lo hi u)) as E by reflexivity.
-    exact H1.
+  intros Hfu. destruct l as [|a r] eqn:El.
+  - assert (bounds_spec lo hi [] = []) as -> by reflexivity.
+    assert (1 <= fuel)%nat as Hf1 by (rewrite len_nil in Hfu; lia).
+    apply (sim_refines _ _ _ (mem_sim_empty lo hi Hf1)). unfold b_new.
+    pose proof (sim_step _ _ _ (mem_sim_empty lo hi Hf1) OFirst (mkB (XG m (g_new [])) BeforeStart None) (-1)) as Hst.
+    cbn [step bounds c_first b_guard b_fail] in Hst. destruct Hst as [H1 [H2 _]]; [|split; [exact H1|split; [exact H2|lia]]].
+    split; [reflexivity|]. split; [eexists; split; [reflexivity|now right]|lia].
+  - rewrite <- El in *. assert (l <> [] \/ lo <> Unbounded) as Hne by (left; rewrite El; discriminate).
+    apply (sim_refines _ _ _ (mem_sim_nonempty lo hi Hne Hfu)). split.
+    + unfold b_new.
+      assert (isG (b_cur (mkB (XG m (g_new l)) BeforeStart None))) as HG0 by (cbn [b_cur]; eexists; split; reflexivity).
+      rewrite (bfirst_eq lo hi _ HG0 Hne).
+      apply (bounds_new_R xfix0 fuel lo hi l (XG m (g_new l)) (len l)). apply xfix0_refines. split; [reflexivity|reflexivity].
+    + apply (pres_b_new ch isG isG_closed0 lo hi). eexists. split; reflexivity.
 Qed.
 End Mem.
 End Scan.
+
+(* ---------------------------------------------------------------- the whole nesting *)
+Lemma xcur_leaf_step fuel d o m g : step (xcur fuel d) o (XG m g) = XG m (step gcur o g).
+Proof. destruct d; destruct o; reflexivity. Qed.
+Lemma xcur_leaf_kv fuel d m g : c_kv (xcur fuel d) (XG m g) = g_kv (g_pos g).
+Proof. destruct d; reflexivity. Qed.
+Lemma xcur_leaf_fail fuel d m g : c_fail (xcur fuel d) (XG m g) = None.
+Proof. destruct d; reflexivity. Qed.
+
+(* the composed specification of the nesting that range_scan builds *)
+Definition level_part (lo hi : bound) (level : list file) : list (list entry) :=
+  match filter (overlaps lo hi) level with [] => [] | fs => [concat (map f_ents fs)] end.
+Definition ver_parts (lo hi : bound) (v : list (list file)) : list (list entry) :=
+  map f_ents (hd [] v) ++ flat_map (level_part lo hi) (tl v).
+Definition ver_list (lo hi : bound) (v : list (list file)) : list entry := merge_spec (ver_parts lo hi v).
+Definition top_parts (lo hi : bound) (ls : list (list entry)) (v : list (list file)) : list (list entry) :=
+  map (bounds_spec lo hi) ls ++ [ver_list lo hi v].
+Definition scan_list (lo hi : bound) (t : N) (ls : list (list entry)) (v : list (list file)) : list entry :=
+  bounds_spec lo hi (prune_spec t (merge_spec (top_parts lo hi ls v))).
+
+(* what the combinators need: sorted lists, sorted files, levels whose selected files are sorted
+   end to end, and no (key, timestamp) twice among what is merged *)
+Definition scan_wf (lo hi : bound) (ls : list (list entry)) (v : list (list file)) : Prop :=
+  Forall sorted ls /\
+  Forall (fun f => sorted (f_ents f)) (concat v) /\
+  Forall (fun level => sorted (concat (map f_ents (filter (overlaps lo hi) level)))) (tl v) /\
+  distinct (concat (ver_parts lo hi v)) /\
+  distinct (concat (top_parts lo hi ls v)).
+
+Definition total_size (ls : list (list entry)) (v : list (list file)) : nat :=
+  length (concat ls) + length (concat (map f_ents (concat v))).
+
+Lemma len_filter_le {A} (f : A -> bool) l : len (filter f l) <= len l.
+Proof. unfold len. induction l as [|a l IH]; cbn; [lia|]. destruct (f a); cbn [length]; lia. Qed.
+Lemma len_merge ls : len (merge_spec ls) = len (concat ls).
+Proof. unfold len. now rewrite <- (Permutation_length (merge_spec_perm ls)). Qed.
+Lemma len_concat_app {A} (l1 l2 : list (list A)) : len (concat (l1 ++ l2)) = len (concat l1) + len (concat l2).
+Proof. now rewrite concat_app, len_app. Qed.
+
+Lemma ver_parts_len lo hi v : len (concat (ver_parts lo hi v)) <= len (concat (map f_ents (concat v))).
+Proof.
+  unfold ver_parts. destruct v as [|l0 r]; [cbn; lia|]. cbn [hd tl concat]. rewrite map_app, !len_concat_app.
+  assert (len (concat (flat_map (level_part lo hi) r)) <= len (concat (map f_ents (concat r)))); [|lia].
+  induction r as [|lv r IH]; [cbn; lia|]. cbn [flat_map concat]. rewrite map_app, !len_concat_app.
+  assert (len (concat (level_part lo hi lv)) <= len (concat (map f_ents lv))); [|lia].
+  unfold level_part. destruct (filter (overlaps lo hi) lv) as [|f fs] eqn:E; [cbn; pose proof (len_nonneg (concat (map f_ents lv))); lia|].
+  cbn [concat]. rewrite app_nil_r, <- E. clear. induction lv as [|f lv IH]; [cbn; lia|]. cbn [filter].
+  destruct (overlaps lo hi f); cbn [map concat]; rewrite ?len_app; pose proof (len_nonneg (f_ents f)); lia.
+Qed.
+Lemma top_parts_len lo hi ls v : len (concat (top_parts lo hi ls v)) <= Z.of_nat (total_size ls v).
+Proof.
+  unfold top_parts, total_size. rewrite len_concat_app. cbn [concat]. rewrite app_nil_r. unfold ver_list. rewrite len_merge.
+  pose proof (ver_parts_len lo hi v). rewrite Nat2Z.inj_add. fold (len (concat ls)). fold (len (concat (map f_ents (concat v)))).
+  assert (len (concat (map (bounds_spec lo hi) ls)) <= len (concat ls)); [|lia].
+  induction ls as [|l ls IH]; [cbn; lia|]. cbn [map concat]. rewrite !len_app. unfold bounds_spec at 1. pose proof (len_filter_le (in_bounds lo hi) l). lia.
+Qed.
+
+Lemma in_concat_len {A} (l : list A) ls : In l ls -> len l <= len (concat ls).
+Proof.
+  induction ls as [|a r IH]; [intros []|]. cbn [concat]. rewrite len_app. intros [->|H]; [pose proof (len_nonneg (concat r)); lia|].
+  specialize (IH H). pose proof (len_nonneg a). lia.
+Qed.
+
+Theorem scan_new_refines fuel lo hi t (mems : list (N * list entry)) v :
+  scan_wf lo hi (map snd mems) v -> (total_size (map snd mems) v + 2 <= fuel)%nat ->
+  refines (xcur fuel scan_depth) (scan_new fuel lo hi t mems v) (scan_list lo hi t (map snd mems) v) (-1).
+Proof.
+  intros [Hls [Hfiles [Hlevels [Hdv Hdt]]]] Hfu. set (ls := map snd mems) in *.
+  pose proof (top_parts_len lo hi ls v) as Htl.
+  assert (sorted (ver_list lo hi v)) as Hvs by (apply merge_spec_sorted; exact Hdv).
+  assert (sorted (merge_spec (top_parts lo hi ls v))) as Hms by (apply merge_spec_sorted; exact Hdt).
+  unfold scan_new, scan_depth, scan_list. change (xcur fuel 5) with (xcur1 fuel (xcur fuel 4)).
+  apply wrap_XB. apply (bounds_refines (xcur fuel 4) fuel lo hi (prune_spec t (merge_spec (top_parts lo hi ls v))) _ (-1)).
+  { apply sorted_filter. exact Hms. }
+  { unfold prune_spec. pose proof (len_filter_le (visible t (merge_spec (top_parts lo hi ls v))) (merge_spec (top_parts lo hi ls v))).
+    rewrite len_merge in H. lia. }
+  change (xcur fuel 4) with (xcur1 fuel (xcur fuel 3)). apply wrap_XP.
+  apply (pruning_refines (xcur fuel 3) fuel t (merge_spec (top_parts lo hi ls v)) _ (-1)); [exact Hms|rewrite len_merge; lia|].
+  change (xcur fuel 3) with (xcur1 fuel (xcur fuel 2)). apply wrap_XM.
+  apply (merging_refines (xcur fuel 2) (merge_spec (top_parts lo hi ls v)) (top_parts lo hi ls v)); [exact Hms|apply merge_spec_perm| |].
+  - unfold top_parts. apply Forall_app. split; [|constructor; [exact Hvs|constructor]].
+    apply Forall_forall. intros li Hli. apply in_map_iff in Hli. destruct Hli as [l0 [<- Hl0]]. apply sorted_filter.
+    rewrite Forall_forall in Hls. now apply Hls.
+  - unfold top_parts. apply Forall2_app.
+    + (* the memtable cursors *)
+      unfold ls. rewrite map_map. clear Hdt Hms Htl. assert (forall ml, In ml mems -> sorted (snd ml) /\ Z.of_nat fuel >= len (snd ml) + 2) as Hml.
+      { intros ml Hin. split; [rewrite Forall_forall in Hls; apply Hls; unfold ls; now apply in_map|].
+        assert (len (snd ml) <= len (concat ls)) by (apply in_concat_len; unfold ls; now apply in_map).
+        unfold total_size in Hfu. fold (len (concat ls)) in Hfu. unfold len in *. lia. }
+      clear -Hml. induction mems as [|ml r IH]; cbn [map]; constructor; [|apply IH; intros x Hx; apply Hml; now right].
+      exists (-1). destruct ml as [m l]. destruct (Hml (m, l) (or_introl eq_refl)) as [Hs Hf]. cbn [snd] in *.
+      unfold mem_leaf. cbn [fst snd]. apply (refines_first (xcur fuel 2) _ _ (-1)).
+      change (xcur fuel 2) with (xcur1 fuel (xcur fuel 1)). apply wrap_XB.
+      apply (mem_bounds_refines fuel (xcur fuel 1) (xcur_leaf_step fuel 1) (xcur_leaf_kv fuel 1) (xcur_leaf_fail fuel 1) m l Hs lo hi Hf).
+    + (* the version *)
+      constructor; [|constructor]. exists (-1). unfold version_scan, ver_list.
+      change (xcur fuel 2) with (xcur1 fuel (xcur fuel 1)). apply wrap_XM.
+      apply (merging_refines (xcur fuel 1) (merge_spec (ver_parts lo hi v)) (ver_parts lo hi v)); [exact Hvs|apply merge_spec_perm| |].
+      * unfold ver_parts. apply Forall_app. split.
+        -- apply Forall_forall. intros li Hli. apply in_map_iff in Hli. destruct Hli as [f [<- Hf]].
+           rewrite Forall_forall in Hfiles. apply Hfiles. destruct v as [|l0 r]; [destruct Hf|]. cbn [hd] in Hf. cbn [concat]. apply in_or_app. now left.
+        -- apply Forall_forall. intros li Hli. apply in_flat_map in Hli. destruct Hli as [lv [Hlv Hli]].
+           unfold level_part in Hli. destruct (filter (overlaps lo hi) lv) as [|f fs] eqn:E; [destruct Hli|]. destruct Hli as [<-|[]].
+           rewrite Forall_forall in Hlevels. specialize (Hlevels lv Hlv). rewrite E in Hlevels. exact Hlevels.
+      * unfold ver_parts. apply Forall2_app.
+        -- assert (forall f, In f (hd [] v) -> sorted (f_ents f)) as Hl0.
+           { intros f Hf. rewrite Forall_forall in Hfiles. apply Hfiles. destruct v as [|l0 r]; [destruct Hf|]. cbn [hd] in Hf. cbn [concat]. apply in_or_app. now left. }
+           clear -Hl0. induction (hd [] v) as [|f r IH]; cbn [map]; constructor; [|apply IH; intros x Hx; apply Hl0; now right].
+           exists (-1). unfold lazy_leaf. change (xcur fuel 1) with (xcur1 fuel (xcur fuel 0)). apply wrap_XL. apply lazy_leaf_refines. apply Hl0. now left.
+        -- assert (forall lv, In lv (tl v) -> sorted (concat (map f_ents (filter (overlaps lo hi) lv))) /\ forall f, In f lv -> sorted (f_ents f)) as Hlv.
+           { intros lv Hin. split; [rewrite Forall_forall in Hlevels; now apply Hlevels|]. intros f Hf. rewrite Forall_forall in Hfiles. apply Hfiles.
+             destruct v as [|l0 r]; [destruct Hin|]. cbn [tl] in Hin. cbn [concat]. apply in_or_app. right. apply in_concat. eauto. }
+           clear -Hlv. induction (tl v) as [|lv r IH]; cbn [flat_map]; [constructor|].
+           apply Forall2_app; [|apply IH; intros x Hx; apply Hlv; now right].
+           destruct (Hlv lv (or_introl eq_refl)) as [Hsl Hsf]. unfold level_part.
+           destruct (filter (overlaps lo hi) lv) as [|f fs] eqn:E; [constructor|]. constructor; [|constructor].
+           exists (-1). change (xcur fuel 1) with (xcur1 fuel (xcur fuel 0)). apply wrap_XC.
+           apply (concat_refines (xcur fuel 0) (map f_ents (f :: fs))); [exact Hsl|discriminate|].
+           assert (forall g, In g (f :: fs) -> sorted (f_ents g)) as Hg.
+           { intros g Hg. apply Hsf. assert (In g (filter (overlaps lo hi) lv)) as H by (rewrite E; exact Hg). apply filter_In in H. tauto. }
+           clear -Hg. induction (f :: fs) as [|g r IH]; cbn [map]; constructor; [|apply IH; intros x Hx; apply Hg; now right].
+           exists (-1). unfold lazy_leaf. cbn [xcur]. apply wrap_XL. apply lazy_leaf_refines. apply Hg. now left.
+Qed.
